@@ -11,6 +11,7 @@ mod c05;
 mod c08;
 mod c09;
 mod c10;
+mod c11;
 mod c12;
 mod c14;
 mod c18;
@@ -35,6 +36,7 @@ fn main() {
         "C09" => c09::run_c09(&mut out, &mut rng, tier),
         "C10" => c10::run_c10(&mut out, &mut rng, tier),
         "C14" => c14::run_c14(&mut out, &mut rng, tier),
+        "C11" => c11::run_c11(&mut out, &mut rng, tier),
         "C12" => c12::run_c12(&mut out, &mut rng, tier),
         "C18" => c18::run_c18(&mut out, &mut rng, tier),
         "C13" => c04::run_c13(&mut out, &mut rng, tier),
